@@ -41,6 +41,9 @@ TOPOS = {
     "distinct-files": ((0, 1), (0, 1)),  # objects -> resources, thread -> handle
     "two-objects-one-file": ((0, 0), (0, 1)),
     "one-object": ((0,), (0, 0)),
+    # thread 0 works on file 0; thread 1 on a SECOND object of file 1 whose first object (handle 1) made the unflushed
+    # write before the threads started (only used with predirty)
+    "second-object-of-dirty-file": ((0, 1, 1), (0, 2)),
 }
 
 
@@ -64,7 +67,7 @@ def build(clsname, topo, names, capname, cap, ops_per_thread=1, predirty=False):
     if predirty:
         # the LAST thread's object already has an unflushed write in the buffer when the threads start (made by the
         # main thread inside the context): a flush forced by the other thread then has something of its to evict
-        h = handles[nthreads - 1]
+        h = 1 if topo == "second-object-of-dirty-file" else handles[nthreads - 1]
         prog["setup"] = (("op", h, "setitem", ("pre", 1)) if k == "dict" else ("op", h, "append", ("pre",)),)
         prog["label"] += "/predirty"
         prog["topology"] += ":predirty"
@@ -77,6 +80,12 @@ def plan(tier, seed):
         k = env.kind_of(c)
         names = CORE[k] if tier == "quick" else tuple(OPS[k])
         for topo in TOPOS:
+            if topo == "second-object-of-dirty-file":
+                mid = 1 if env.is_memory_buffered(c) else 40
+                w = "setitem_diff" if k == "dict" else "append"
+                for a, b in (("read", "read"), ("read", w), (w, "read")) + ((("reset", "read"),) if tier != "quick" else ()):
+                    p1.append(build(c, topo, [a, b], "mid", mid, predirty=True))
+                continue
             for capname, cap in capacities(c, tier):
                 for a, b in itertools.combinations_with_replacement(names, 2):
                     if "read" in (a, b) and (topo == "one-object" or a == b):
